@@ -347,108 +347,120 @@ func Run(sc *pw.Scenario) *simkit.Outcome {
 	if sc.SharedPacker && !sc.Opts.Legacy {
 		sharedPacker, _ = packer(sc.Opts)
 	}
-	for _, h := range sc.History {
-		sink := simkit.NewSimWriter("hist", simkit.WriterPlan{}, simkit.NewLog(), nil)
-		switch {
-		case h == "negated-twin-rules":
-			// another tree in this process whose rule file has the same patterns with the negation flipped
-			if sc.Rules != nil && sc.RulesKind == "" {
-				os.MkdirAll("/w/hist6/a/b", 0o755)
-				var flipped []string
-				for _, l := range strings.Split(*sc.Rules, "\n") {
-					t := strings.TrimSpace(l)
-					switch {
-					case t == "" || strings.HasPrefix(t, "#"):
-						flipped = append(flipped, l)
-					case strings.HasPrefix(t, "!"):
-						flipped = append(flipped, t[1:])
-					default:
-						flipped = append(flipped, "!"+t)
+	runHistory := func() {
+		for _, h := range sc.History {
+			sink := simkit.NewSimWriter("hist", simkit.WriterPlan{}, simkit.NewLog(), nil)
+			switch {
+			case h == "negated-twin-rules":
+				// another tree in this process whose rule file has the same patterns with the negation flipped
+				if sc.Rules != nil && sc.RulesKind == "" {
+					os.MkdirAll("/w/hist6/a/b", 0o755)
+					var flipped []string
+					for _, l := range strings.Split(*sc.Rules, "\n") {
+						t := strings.TrimSpace(l)
+						switch {
+						case t == "" || strings.HasPrefix(t, "#"):
+							flipped = append(flipped, l)
+						case strings.HasPrefix(t, "!"):
+							flipped = append(flipped, t[1:])
+						default:
+							flipped = append(flipped, "!"+t)
+						}
 					}
-				}
-				os.WriteFile("/w/hist6/.terraformignore", []byte(strings.Join(flipped, "\n")), 0o644)
-				for _, n := range []string{"a/x", "a/b/y", "c", "d.txt"} {
-					os.WriteFile("/w/hist6/"+n, []byte("h6"), 0o644)
-				}
-				filepath.Walk("/w/hist6", func(p string, info os.FileInfo, err error) error {
-					if err == nil {
-						setTimes(p, 1300000002, 0)
+					os.WriteFile("/w/hist6/.terraformignore", []byte(strings.Join(flipped, "\n")), 0o644)
+					for _, n := range []string{"a/x", "a/b/y", "c", "d.txt"} {
+						os.WriteFile("/w/hist6/"+n, []byte("h6"), 0o644)
 					}
-					return nil
-				})
+					filepath.Walk("/w/hist6", func(p string, info os.FileInfo, err error) error {
+						if err == nil {
+							setTimes(p, 1300000002, 0)
+						}
+						return nil
+					})
+					o := sc.Opts
+					o.Ignore = true
+					save := sharedPacker
+					sharedPacker = nil
+					doPack(o, "/w/hist6", sink)
+					sharedPacker = save
+				}
+			case h == "shared:stale-rules":
+				// the same Packer packed this very directory before, under another rule file
+				if sc.Rules != nil && sc.RulesKind == "" {
+					old := "*\n!keep-nothing\n"
+					os.WriteFile(pw.SrcRoot+"/.terraformignore", []byte(old), 0o644)
+					doPack(sc.Opts, pw.SrcRoot, sink)
+					os.WriteFile(pw.SrcRoot+"/.terraformignore", []byte(*sc.Rules), 0o644)
+					setTimes(pw.SrcRoot+"/.terraformignore", 1300000001, 0)
+					setTimes(pw.SrcRoot, 1300000000, 0)
+				}
+			case strings.HasPrefix(h, "shared:fail@"):
+				// an earlier Pack on the same Packer failed half-way (its writer broke)
+				off := 0
+				fmt.Sscan(h[len("shared:fail@"):], &off)
+				bad := simkit.NewSimWriter("hist-fail", simkit.WriterPlan{Faults: []simkit.Fault{{Off: off, Kind: "err", Sticky: true}}}, simkit.NewLog(), nil)
+				doPack(sc.Opts, pw.SrcRoot, bad)
+			case h == "shared:hist3":
+				// the same Packer serves another root first (its relative allow-list entry means something else there)
+				doPack(sc.Opts, "/w/hist3/inner", sink)
+			case h == "dot-other-tree":
+				// the same spelling "." denotes another tree whose rule file has equal size and mtime
+				if sc.Rules != nil {
+					os.MkdirAll("/w/hist5", 0o755)
+					other := strings.Map(func(r rune) rune {
+						switch r {
+						case 'a':
+							return 'b'
+						case 'b':
+							return 'a'
+						case 'c':
+							return 'd'
+						case 'd':
+							return 'c'
+						case 'm':
+							return 'n'
+						case 't':
+							return 'f'
+						}
+						return r
+					}, *sc.Rules)
+					os.WriteFile("/w/hist5/.terraformignore", []byte(other), 0o644)
+					for _, n := range []string{"a", "b", "c", "d"} {
+						os.WriteFile("/w/hist5/"+n, []byte("h5"+n), 0o644)
+					}
+					for _, n := range []string{"a", "b", "c", "d", ""} {
+						setTimes("/w/hist5/"+n, 1300000002, 0)
+					}
+					setTimes("/w/hist5/.terraformignore", 1300000001, 0)
+					os.Chdir("/w/hist5")
+					doPack(sc.Opts, ".", sink)
+					os.Chdir("/")
+				}
+			case h == "neg-first":
+				doPack(pw.Opts{Ignore: true}, "/w/hist1", sink)
+			case h == "empty-rules":
+				doPack(pw.Opts{Ignore: true}, "/w/hist2", sink)
+			case h == "other-opts":
 				o := sc.Opts
-				o.Ignore = true
-				save := sharedPacker
-				sharedPacker = nil
-				doPack(o, "/w/hist6", sink)
-				sharedPacker = save
-			}
-		case h == "shared:stale-rules":
-			// the same Packer packed this very directory before, under another rule file
-			if sc.Rules != nil && sc.RulesKind == "" {
-				old := "*\n!keep-nothing\n"
-				os.WriteFile(pw.SrcRoot+"/.terraformignore", []byte(old), 0o644)
+				o.Ignore, o.Deref, o.Legacy = !o.Ignore, !o.Deref, false
+				doPack(o, pw.SrcRoot, sink)
+			case h == "same":
 				doPack(sc.Opts, pw.SrcRoot, sink)
-				os.WriteFile(pw.SrcRoot+"/.terraformignore", []byte(*sc.Rules), 0o644)
-				setTimes(pw.SrcRoot+"/.terraformignore", 1300000001, 0)
-				setTimes(pw.SrcRoot, 1300000000, 0)
+			case strings.HasPrefix(h, "chdir:"):
+				os.Chdir(h[6:])
 			}
-		case strings.HasPrefix(h, "shared:fail@"):
-			// an earlier Pack on the same Packer failed half-way (its writer broke)
-			off := 0
-			fmt.Sscan(h[len("shared:fail@"):], &off)
-			bad := simkit.NewSimWriter("hist-fail", simkit.WriterPlan{Faults: []simkit.Fault{{Off: off, Kind: "err", Sticky: true}}}, simkit.NewLog(), nil)
-			doPack(sc.Opts, pw.SrcRoot, bad)
-		case h == "shared:hist3":
-			// the same Packer serves another root first (its relative allow-list entry means something else there)
-			doPack(sc.Opts, "/w/hist3/inner", sink)
-		case h == "dot-other-tree":
-			// the same spelling "." denotes another tree whose rule file has equal size and mtime
-			if sc.Rules != nil {
-				os.MkdirAll("/w/hist5", 0o755)
-				other := strings.Map(func(r rune) rune {
-					switch r {
-					case 'a':
-						return 'b'
-					case 'b':
-						return 'a'
-					case 'c':
-						return 'd'
-					case 'd':
-						return 'c'
-					case 'm':
-						return 'n'
-					case 't':
-						return 'f'
-					}
-					return r
-				}, *sc.Rules)
-				os.WriteFile("/w/hist5/.terraformignore", []byte(other), 0o644)
-				for _, n := range []string{"a", "b", "c", "d"} {
-					os.WriteFile("/w/hist5/"+n, []byte("h5"+n), 0o644)
-				}
-				for _, n := range []string{"a", "b", "c", "d", ""} {
-					setTimes("/w/hist5/"+n, 1300000002, 0)
-				}
-				setTimes("/w/hist5/.terraformignore", 1300000001, 0)
-				os.Chdir("/w/hist5")
-				doPack(sc.Opts, ".", sink)
-				os.Chdir("/")
-			}
-		case h == "neg-first":
-			doPack(pw.Opts{Ignore: true}, "/w/hist1", sink)
-		case h == "empty-rules":
-			doPack(pw.Opts{Ignore: true}, "/w/hist2", sink)
-		case h == "other-opts":
-			o := sc.Opts
-			o.Ignore, o.Deref, o.Legacy = !o.Ignore, !o.Deref, false
-			doPack(o, pw.SrcRoot, sink)
-		case h == "same":
-			doPack(sc.Opts, pw.SrcRoot, sink)
-		case strings.HasPrefix(h, "chdir:"):
-			os.Chdir(h[6:])
+			log.Add(0, "history", h)
 		}
-		log.Add(0, "history", h)
+	}
+	// the history precedes every observed pack, or (HistAfter > 0, sequential runs only) the
+	// first HistAfter packs run in a process that has seen nothing yet and the rest after it:
+	// state that the history leaves behind then shows as a difference between the runs
+	histAfter := sc.HistAfter
+	if sc.Conc || histAfter >= len(sc.Runs) {
+		histAfter = 0
+	}
+	if histAfter == 0 {
+		runHistory()
 	}
 
 	// ---- the observed packs ----
@@ -476,6 +488,10 @@ func Run(sc *pw.Scenario) *simkit.Outcome {
 	if !sc.Conc {
 		for i := range sc.Runs {
 			rn := sc.Runs[i]
+			if histAfter > 0 && i == histAfter {
+				runHistory()
+				out.Probe("history-between-runs")
+			}
 			if err := os.Chdir(rn.Cwd); err != nil {
 				out.Harness = "chdir: " + err.Error()
 				return out
@@ -1254,6 +1270,29 @@ func checkRejections(out *simkit.Outcome, sc *pw.Scenario, res []*result, t *tre
 
 // ---- C16: same tree + options => same slug, whatever spelling/cwd/history/concurrency ----
 func checkSameOutput(out *simkit.Outcome, sc *pw.Scenario, res []*result) {
+	out.Digests = make([]string, len(res))
+	for i := range out.Digests {
+		out.Digests[i] = "-"
+	}
+	defer func() {
+		if len(sc.Expect) != len(res) {
+			return
+		}
+		for i, d := range out.Digests {
+			if d == "-" || sc.Expect[i] == "-" {
+				continue
+			}
+			if d == sc.Expect[i] {
+				out.Probe("same-output-as-fresh-process")
+				continue
+			}
+			cls := "history-fresh-process"
+			if rn := sc.Runs[i]; rn.Spelling == "symlink-rel" && (rn.Cwd != "/w" || sc.Conc || histChdir(sc)) {
+				cls = "root-symlink-relative-target"
+			}
+			out.Violate("C16", "output-differs", cls, fmt.Sprintf("run %d (%s, cwd %s) after history %v differs from the same run in a fresh process without that history (%s)", i, sc.Runs[i].Spelling, sc.Runs[i].Cwd, sc.History, errOf(res[i])))
+		}
+	}()
 	ref := -1
 	var refSig []string
 	order := make([]int, 0, len(res))
@@ -1287,6 +1326,7 @@ func checkSameOutput(out *simkit.Outcome, sc *pw.Scenario, res []*result) {
 				sig = append(sig, entSig(e))
 			}
 		}
+		out.Digests[i] = simkit.HashString(strings.Join(sig, "\n"))
 		if ref < 0 {
 			ref, refSig = i, sig
 			continue
